@@ -216,6 +216,14 @@ def _red_max(a, b):
     return a if a >= b else b
 
 
+def _red_sumsq(ys):
+    """an ARRAY-LIKE reducer (SetReducer(..., arraylike=True)) that is not the identity on a single value"""
+    t = 0.0
+    for v in ys:
+        t = t + float(v) * float(v)
+    return t
+
+
 def solver_classes():
     from mystic.solvers import DifferentialEvolutionSolver, DifferentialEvolutionSolver2, NelderMeadSimplexSolver, PowellDirectionalSolver
     return dict(DE=DifferentialEvolutionSolver, DE2=DifferentialEvolutionSolver2, NM=NelderMeadSimplexSolver, POW=PowellDirectionalSolver)
@@ -487,7 +495,10 @@ def apply_op(solver, rec, op, k, case_tag):
             solver.SetStrictRanges(list(op["lo"]), list(op["hi"]), **kw)
     elif o == "SetReducer":
         st["red"] = op["red"]
-        solver.SetReducer({None: None, "sum": _red_sum, "max": _red_max}[op["red"]])
+        if op["red"] == "sumsq":
+            solver.SetReducer(_red_sumsq, arraylike=True)
+        else:
+            solver.SetReducer({None: None, "sum": _red_sum, "max": _red_max}[op["red"]])
     elif o == "SetLimits":
         solver.SetEvaluationLimits(op["g"], op["e"], new=op["new"])
     elif o == "SetTermination":
@@ -688,7 +699,7 @@ def script_coq(case, out):
                 ops.append("@OSetStrictRanges NumF _ %s" % box)
             tight_on = now_tight
         elif o == "SetReducer":
-            ops.append("@OSetReducer NumF _ %s" % {None: "None", "sum": "(Some red_sum)", "max": "(Some red_max)"}[op["red"]])
+            ops.append("@OSetReducer NumF _ %s" % {None: "None", "sum": "(Some red_sum)", "max": "(Some red_max)", "sumsq": "(Some red_sumsq)"}[op["red"]])
         elif o == "SetLimits":
             ops.append("@OSetLimits NumF _ %s %s %s" % (opt(op["g"], zlit), opt(op["e"], zlit), blit(op["new"])))
         elif o == "SetTermination":
